@@ -519,7 +519,17 @@ fn process_tags(
             } else {
                 None
             };
-            let gen_result = t.generate_events(context);
+            let gen_result = match t.generate_events(context) {
+                // Limits are safety stops, not missing context: retrying would resume from
+                // the state the failed attempt left behind. That holds inside a specs block
+                // as well, where other errors are expected and ignored.
+                Err(
+                    err @ (SvgdxError::LoopLimitError(..)
+                    | SvgdxError::VarLimitError(..)
+                    | SvgdxError::DepthLimitExceeded(..)),
+                ) => return Err(err),
+                other => other,
+            };
             if !context.in_specs {
                 // if we *are* in a specs block, we don't care if there were errors;
                 // a specs entry may have insufficient context until reuse time.
@@ -533,16 +543,6 @@ fn process_tags(
                         idx_output.insert(idx, events);
                     }
                 } else {
-                    if let Err(
-                        err @ (SvgdxError::LoopLimitError(..)
-                        | SvgdxError::VarLimitError(..)
-                        | SvgdxError::DepthLimitExceeded(..)),
-                    ) = gen_result
-                    {
-                        // Limits are safety stops, not missing context: retrying would
-                        // resume from the state the failed attempt left behind.
-                        return Err(err);
-                    }
                     if let (Some(el), Err(err)) = (el, gen_result) {
                         if let SvgdxError::MultiError(err_list) = err {
                             for (idx, (el, err)) in err_list {
